@@ -23,8 +23,11 @@ MANIFEST = dict(
          "inconsistent one (worst point integrated/recorded twice or an insertion index missing) — the latter is a genuine defect "
          "of the code (known finding F4), so the property is decided as: holds outside the window, fails inside it, window exact. "
          "Importance sampler: the handler's checkpoint request returns before any write (guard position extracted from source). "
-         "Tie: the real handler path (checkpoint + exit) is invoked before every traced source line of the real iteration, the "
-         "pickled state and the resumed run are compared with the model and checked with the property's consistency list.",
+         "Tie: the real handler path (checkpoint + exit) is invoked before every statement line of consume_sample, "
+         "insert_live_point, check_state and update_state of the real sampler (scripted proposal; and a real run in its flow "
+         "phase), the pickled state and the resumed run are compared with the model and checked with the property's consistency "
+         "list; a real SIGTERM to a child process checks the exit code; for the importance sampler the boundary checkpoint must "
+         "stay byte-identical.",
     note="Signals are delivered at source-line granularity by a trace hook calling the real checkpoint/exit path (real OS signals "
          "only for the exit-code test); interruptions inside state.increment / inside NumPy slice assignment are not enumerated.",
     technique="Lean 4 proof (micro-step state machine, both directions) + source-order translator + line-level interruption of the real code",
